@@ -10,6 +10,7 @@ ZERO32 = b"\x00\x00\x00\x00\x00\x00\x00\x00\x00\x00\x00\x00\x00\x00\x00\x00\x00\
 
 
 # pycoin/coins/tx_utils.py :: distribute_from_split_pool
+# pycoin/coins/tx_utils.py :: distribute_from_split_pool
 def tu_distribute(tx, fee):
     if fee == 'standard':
         fee = tx_fee.recommended_fee_for_tx(tx)
@@ -25,6 +26,8 @@ def tu_distribute(tx, fee):
             raise ValueError()
         for value, tx_out in zip(split_with_remainder(remaining_coins, zero_count), zero_txs_out):
             tx_out.coin_value = value
+    elif sum((tx_out.coin_value for tx_out in tx.txs_out)) > sum((spendable.coin_value for spendable in tx.unspents)):
+        raise ValueError()
     return zero_count
 
 
